@@ -17,7 +17,7 @@
 typedef uint32_t vc_t[N];
 
 struct ctx {
-	int used, finished, fired, prio, consecutive;
+	int used, finished, fired, prio, consecutive, role;
 	vrt_fn fn;
 	void *arg;
 	ucontext_t uc;
@@ -27,6 +27,7 @@ struct ctx {
 };
 
 static struct ctx C[N];
+static vc_t role_clock[N + 1]; /* clock at which the last handler of a role finished */
 static char *stacks[N];
 static int nctx, cur, mode;
 static vrt_choose_fn choose_cb;
@@ -259,11 +260,17 @@ static void fire(int h)
 	isr_depth++;
 	cur = h;
 	now_ctr++;
+	/* successive invocations of one interrupt source (same role, equal priority, cannot nest) are one
+	 * logical context: a later invocation is sequenced after the earlier ones */
+	if (C[h].role > 0)
+		vc_join(C[h].vc, role_clock[C[h].role]);
 	in_rt = 0;
 	C[h].fn(C[h].arg);
 	in_rt = 1;
 	now_ctr++;
 	C[h].finished = 1;
+	if (C[h].role > 0)
+		vc_join(role_clock[C[h].role], C[h].vc);
 	cur = prev;
 	isr_depth--;
 }
@@ -377,6 +384,7 @@ void vrt_reset(int m, vrt_choose_fn choose)
 	mode = m;
 	choose_cb = choose;
 	memset(C, 0, sizeof C);
+	memset(role_clock, 0, sizeof role_clock);
 	memset(&R, 0, sizeof R);
 	nctx = 1;
 	cur = 0;
@@ -395,6 +403,7 @@ void vrt_reset(int m, vrt_choose_fn choose)
 	gen++;
 }
 void vrt_set_max_nesting(int n) { max_nesting = n; }
+void vrt_set_role(int ctx, int role) { C[ctx].role = role; }
 void vrt_config(int pb, int ea, int sb)
 {
 	preempt_budget = pb;
